@@ -52,9 +52,11 @@ Record tlsst := mkTls {
   t_supp : bool;                 (* driverSendSuppressed *)
   t_init : bool;                 (* SSL_is_init_finished (state of the engine) *)
   t_pend : Z;                    (* size of pendingSend, -1 = empty *)
-  t_rem : Z                      (* remainingTime, ms *)
+  t_rem : Z;                     (* remainingTime, ms *)
+  t_server : bool;               (* SSL_is_server: accept state (socket obtained from a TLS acceptor) *)
+  t_started : bool               (* negation of SSL_in_before: the engine was entered at least once *)
 }.
-#[export] Instance eta_tls : Settable _ := settable! mkTls <t_last; t_isr; t_isw; t_supp; t_init; t_pend; t_rem>.
+#[export] Instance eta_tls : Settable _ := settable! mkTls <t_last; t_isr; t_isw; t_supp; t_init; t_pend; t_rem; t_server; t_started>.
 
 Record ext := mkExt {
   x_pools : list (Z * pool);     (* user pools by key *)
